@@ -311,12 +311,24 @@ class ListNet:
                     removed -= len(v.left.elts)
                     nonempty = len(v.left.elts) > 0 or nonempty
                     continue
-                # X, L = g(L)
-                if idx is not None and isinstance(v, ast.Call) and any(isinstance(a, ast.Name) and a.id == L for a in v.args):
+                # X, L = g(L)   /   X, L = g([x] + L)  (push back, then hand over)
+                def _is_L(a):
+                    return isinstance(a, ast.Name) and a.id == L
+
+                def _pushed(a):
+                    if isinstance(a, ast.BinOp) and isinstance(a.op, ast.Add) and isinstance(a.left, ast.List) and _is_L(a.right):
+                        return len(a.left.elts)
+                    return None
+
+                if idx is not None and isinstance(v, ast.Call) and any(_is_L(a) or _pushed(a) is not None for a in v.args):
                     callee = self.resolve_callee(v, mod)
                     if callee is None:
                         return None
-                    argpos = [i for i, a in enumerate(v.args) if isinstance(a, ast.Name) and a.id == L][0]
+                    argpos = [i for i, a in enumerate(v.args) if _is_L(a) or _pushed(a) is not None][0]
+                    pushed = _pushed(v.args[argpos])
+                    if pushed:
+                        removed -= pushed
+                        nonempty = True
                     k = self.summary(callee, argpos, idx)
                     if k is None:
                         return None
@@ -415,8 +427,17 @@ class ListNet:
                         dfs(s, removed, ne, heads, onpath)
                     return
             if node.kind == "test" and isinstance(node.ast, ast.If):
-                g = _is_len_guard(node.ast.test)
-                # `if len(L) <= 0`-style tests do not change the counters
+                e = _emptiness(fn, node.ast.test, L)
+                if e is not None:
+                    for s, lab in succ:
+                        if s == cfg.exit:
+                            best[0] = "bad"
+                            return
+                        if (s, lab) in onpath and cfg.nodes[s].kind != "test":
+                            continue
+                        ne2 = ((lab == "true") != e) if lab in ("true", "false") else nonempty
+                        dfs(s, removed, ne2, heads, onpath | {(s, lab)})
+                    return
             for s, lab in succ:
                 if s == cfg.exit:
                     # falling off the end returns None
@@ -447,21 +468,55 @@ class ListNet:
                     ne = r[1]
                 elif k == "test" and isinstance(st, ast.While) and st is not lp.stmt:
                     return None
+                elif k == "test" and isinstance(st, ast.If) and lab in ("true", "false"):
+                    from .sem import emptiness as _em
+                    e = _em(None, st.test, L)
+                    if e is not None:
+                        ne = (lab == "true") != e
             worst = removed if worst is None else min(worst, removed)
         return worst if worst is not None else 0
 
 
+def _emptiness(fn, test, L):
+    from .sem import emptiness
+    return emptiness(fn, test, L)
+
+
+def _loop_len_guards(fn, loop):
+    """[(L, guard is the loop test)]: `while len(L)` style guards, or - for `while True` - lists whose emptiness is tested by
+    an `if` in the body whose empty side leaves the loop"""
+    L = _is_len_guard(loop.test)
+    if L is not None:
+        return [(L, True)]
+    out = []
+    if isinstance(loop.test, ast.Constant) and loop.test.value is True:
+        for n in loop_stmts(loop):
+            if isinstance(n, ast.If):
+                for nm in {x.id for x in ast.walk(n.test) if isinstance(x, ast.Name)}:
+                    e = _emptiness(fn, n.test, nm)
+                    side = n.body if e is True else (n.orelse if e is False else None)
+                    if side and isinstance(side[-1], (ast.Return, ast.Break, ast.Raise)) and (nm, False) not in out:
+                        out.append((nm, False))
+    return out
+
+
 def schema_len_consume(ctx, fn, cfg, lp, ev):
-    L = _is_len_guard(lp.stmt.test)
-    if L is None:
-        return None
+    res = None
+    for L, in_test in _loop_len_guards(fn, lp.stmt):
+        res = _len_consume_for(ctx, fn, cfg, lp, ev, L, in_test)
+        if res is not None and res[0]:
+            return res
+    return res
+
+
+def _len_consume_for(ctx, fn, cfg, lp, ev, L, guard_in_test):
     ln = ListNet(ctx)
     worst = None
     detail = []
     for kind, path, edge in cfg.iteration_paths(lp):
         if kind != "back":
             continue
-        removed, ne = 0, True
+        removed, ne = 0, guard_in_test
         bad = False
         for k, st, lab in simple_stmts_of(cfg, path):
             if k == "stmt":
@@ -474,6 +529,10 @@ def schema_len_consume(ctx, fn, cfg, lp, ev):
             elif k == "test" and isinstance(st, ast.While) and st is not lp.stmt:
                 bad = True
                 break
+            elif k == "test" and isinstance(st, ast.If) and lab in ("true", "false"):
+                e = _emptiness(fn, st.test, L)
+                if e is not None:
+                    ne = (lab == "true") != e
         if bad:
             return False, "LEN-CONSUME", f"`{L}` is rebound or mutated in a way the element-count analysis does not model"
         lines = sorted({getattr(s, "lineno", 0) for _, s, _ in simple_stmts_of(cfg, path)})
@@ -968,8 +1027,81 @@ def _size_term(ctx, L, node, env):
     return t
 
 
+def schema_len_grow(ctx, fn, cfg, lp, ev):
+    """`while len(X) < N` (N loop-invariant): every back-edge path appends to X at least once and nothing in the loop removes
+    from or rebinds X, so len(X) is a strictly increasing counter bounded by N."""
+    loop = lp.stmt
+    t = loop.test
+    X = N = None
+    for g in guard_atoms(t):
+        if isinstance(g, ast.Compare) and len(g.ops) == 1:
+            l, op, r = g.left, g.ops[0], g.comparators[0]
+            if isinstance(op, (ast.Lt, ast.LtE)) and isinstance(l, ast.Call) and isinstance(l.func, ast.Name) and l.func.id == "len" and len(l.args) == 1 \
+                    and isinstance(l.args[0], ast.Name) and invariant_in_loop(r, loop):
+                X, N = l.args[0].id, r
+            if isinstance(op, (ast.Gt, ast.GtE)) and isinstance(r, ast.Call) and isinstance(r.func, ast.Name) and r.func.id == "len" and len(r.args) == 1 \
+                    and isinstance(r.args[0], ast.Name) and invariant_in_loop(l, loop):
+                X, N = r.args[0].id, l
+    if X is None:
+        return None
+    for n in loop_stmts(loop):
+        if isinstance(n, (ast.Assign, ast.AugAssign, ast.AnnAssign, ast.Delete, ast.For)):
+            tg = n.targets if isinstance(n, (ast.Assign, ast.Delete)) else [n.target]
+            for t_ in tg:
+                for sub in ast.walk(t_):
+                    if isinstance(sub, ast.Name) and sub.id == X:
+                        return False, "LEN-GROW", f"`{X}` is rebound or cut inside the loop"
+        if isinstance(n, ast.Call) and isinstance(n.func, ast.Attribute) and isinstance(n.func.value, ast.Name) and n.func.value.id == X \
+                and n.func.attr in ("pop", "remove", "clear", "__delitem__"):
+            return False, "LEN-GROW", f"`{X}.{n.func.attr}` inside the loop"
+    nback = 0
+    for kind, path, edge in cfg.iteration_paths(lp):
+        if kind != "back":
+            continue
+        nback += 1
+        grows = 0
+        for k, st, lab in simple_stmts_of(cfg, path):
+            if k == "stmt":
+                for c in ast.walk(st):
+                    if isinstance(c, ast.Call) and isinstance(c.func, ast.Attribute) and isinstance(c.func.value, ast.Name) and c.func.value.id == X \
+                            and c.func.attr == "append":
+                        grows += 1
+        if grows < 1:
+            lines = sorted({getattr(s_, "lineno", 0) for _, s_, _ in simple_stmts_of(cfg, path)})
+            return False, "LEN-GROW", f"a back-edge path (lines {lines}) does not append to `{X}`"
+    if nback == 0:
+        return None
+    return True, "LEN-GROW", f"len({X}) grows by >= 1 on each of the {nback} back-edge paths and is bounded by `{norm(N)}`"
+
+
+def _guard_read(test):
+    """`len(v := X.read(n)) >= 1` / `> 0` / bare walrus truthiness -> (v, read call) else None"""
+    t = test
+    if isinstance(t, ast.Compare) and len(t.ops) == 1:
+        l, op, r = t.left, t.ops[0], t.comparators[0]
+        if (isinstance(op, ast.GtE) and isinstance(r, ast.Constant) and r.value == 1) or (isinstance(op, (ast.Gt, ast.NotEq)) and isinstance(r, ast.Constant) and r.value == 0):
+            t = l
+        else:
+            return None
+    if isinstance(t, ast.Call) and isinstance(t.func, ast.Name) and t.func.id == "len" and len(t.args) == 1:
+        t = t.args[0]
+    if isinstance(t, ast.NamedExpr) and isinstance(t.value, ast.Call) and isinstance(t.value.func, ast.Attribute) and t.value.func.attr == "read":
+        return t.target.id, t.value
+    return None
+
+
 def schema_read_until_empty(ctx, fn, cfg, lp, ev):
     loop = lp.stmt
+    gr = _guard_read(loop.test)
+    if gr is not None:
+        var, call = gr
+        size = call.args[0] if call.args else None
+        if size is None:
+            return False, "READ-UNTIL-EMPTY", "read() without a size would recurse into readall"
+        t = ev.ev(size)
+        if t.is_const() and t.value() <= 0:
+            return False, "READ-UNTIL-EMPTY", "read size is not positive"
+        return True, "READ-UNTIL-EMPTY", f"the guard itself reads and leaves when `{var}` is empty; relies on S5 (position advances by the clipped size) and a positive `{norm(size)}`"
     if not (isinstance(loop.test, ast.Constant) and loop.test.value is True):
         return None
     # x = self.read(<positive attr>) ; if len(x) < 1: break
@@ -1048,7 +1180,7 @@ def schema_ancestor(ctx, fn, cfg, lp, ev):
     return None
 
 
-SCHEMAS = [schema_counter, schema_bounded_raise, schema_len_consume, schema_iterator, schema_visited_walk,
+SCHEMAS = [schema_counter, schema_bounded_raise, schema_len_consume, schema_len_grow, schema_iterator, schema_visited_walk,
            schema_stream_parse, schema_read_until_empty, schema_ancestor]
 
 
